@@ -132,7 +132,7 @@ func xCoqVal(v reflect.Value) string {
 	case reflect.Struct:
 		fs := []string{"Build_go_" + filepath.Base(v.Type().PkgPath()) + "_" + v.Type().Name()}
 		for i := 0; i < v.NumField(); i++ {
-			if v.Field(i).Kind() == reflect.Map { // outside the subset: not a member of the generated record
+			if v.Field(i).Kind() == reflect.Chan { // outside the subset: not a member of the generated record
 				continue
 			}
 			fs = append(fs, xCoqVal(v.Field(i)))
